@@ -179,6 +179,15 @@ def run(ctx):
                     begin = v
         ctx.instance(R3, f"{q.split('.')[-1]}[BeginSeqNo = expected number]", begin is not None and unparse(begin).endswith("next_num_in"),
                      f"BeginSeqNo is `{short(begin) if begin is not None else '?'}`, not the expected inbound number: messages are skipped or requested twice", loc(c))
+        # open-ended: while the resend is awaited every too-high message is dropped, so the request must ask for everything from the expected number on
+        endv = None
+        if len(c.args) > 1 and isinstance(c.args[1], ast.Dict):
+            for k, v in zip(c.args[1].keys, c.args[1].values):
+                if unparse(k) == "FTag.EndSeqNo":
+                    endv = v
+        ctx.instance(R3, f"{q.split('.')[-1]}[EndSeqNo = 0 (open-ended)]", isinstance(endv, ast.Constant) and str(endv.value) == "0",
+                     f"the ResendRequest is bounded (EndSeqNo = `{short(endv) if endv is not None else '?'}`): messages the peer sends above that bound before it sees the request are "
+                     "dropped as too high here and then gap-filled away by the peer - lost without a second request", loc(c))
         # AWAITING entered on every normal path after the request
         fn = repo.func(q)
         fg = CFG(fn)
@@ -212,9 +221,13 @@ def run(ctx):
             fs = set()
             for t, lab in fg.guards(n.id, exc=False):
                 fs |= facts(t, lab == "true")
-            ok = any(tv and ">= self._max_seq_num_resend" in a for a, tv in fs) and any(tv and "RESENDREQ_AWAITING" in a and "==" in a for a, tv in fs)
+            acc = None
+            for x in walk_no_nested(fin):
+                if isinstance(x, ast.Assign) and isinstance(x.value, ast.Call) and unparse(x.value.func).endswith("set_next_num_in") and isinstance(x.targets[0], ast.Name):
+                    acc = x.targets[0].id
+            ok = acc is not None and any(tv and a == f"{acc} >= self._max_seq_num_resend" for a, tv in fs) and any(tv and "RESENDREQ_AWAITING" in a and "==" in a for a, tv in fs)
             ctx.instance(R3, "_finalize_message[ACTIVE only at the watermark]", ok,
-                         "_finalize_message returns to ACTIVE without the 'accepted number >= requested watermark' test in RESENDREQ_AWAITING", loc(n.ast))
+                         "_finalize_message returns to ACTIVE without comparing the number it has just accepted with the requested watermark (>=) in RESENDREQ_AWAITING: the gap is declared closed one message early / late", loc(n.ast))
 
     # ---- rule 4
     cs = [(q, c) for q, c in res.call_sites("FIXSession.set_next_num_in") if getattr(c, "_module").rel not in EXCLUDED]
